@@ -49,6 +49,9 @@ def _full_state(m):
         d.setdefault(k, v)
     for k, mod in m.named_modules():
         d[(k + "." if k else "") + "__training__"] = torch.tensor(float(mod.training))
+    # ... and so is whether a parameter is trainable
+    for k, p_ in m.named_parameters():
+        d[k + ".__requires_grad__"] = torch.tensor(float(p_.requires_grad))
     return d
 
 
@@ -165,7 +168,7 @@ class SessionRec:
         keys = _diff(sd0, sd1)
         writes = sorted({("other:keys" if k == "keys" else categorize(k, self.anp)) for k in keys})
         rep = rep_override or "first"
-        ev = {"a": "Call", "op": op, "ik": _input_kind(ts), "argsChanged": bool(changed(ts, snaps)), "writes": writes, "repeat": rep, "raised": raised}
+        ev = {"a": "Call", "op": op, "ik": _input_kind(ts), "argsChanged": bool(changed(ts, snaps)), "writes": writes, "repeat": rep, "raised": raised, "twin": "na"}
         if len(self.cur["ev"]) < MAX_EVENTS:
             self.cur["ev"].append(ev)
         self.after = sd1
